@@ -24,7 +24,7 @@ def alias_snapshot(env, op):
     for d in lang.op_deps(op):
         v = env.heap[d]
         if is_object_slot(v):
-            dd = getattr(v, "__dict__", None)
+            dd = lib.state(v)
             if isinstance(dd, dict) and "alias" in dd:
                 snap.append((d, dd["alias"]))
     return snap
@@ -32,7 +32,7 @@ def alias_snapshot(env, op):
 
 def alias_changed(env, snap):
     for d, a in snap:
-        cur = env.heap[d].__dict__.get("alias")
+        cur = lib.state(env.heap[d]).get("alias")
         if cur is not a and not (isinstance(cur, str) and isinstance(a, str) and cur == a):
             return True
     return False
@@ -63,7 +63,7 @@ def build_program(seed, run, tag=0xC01, overrides=None, prop=PROP):
                 break
             fx = []
             for d, a in before:
-                cur = env.heap[d].__dict__.get("alias")
+                cur = lib.state(env.heap[d]).get("alias")
                 if a is None and isinstance(cur, str):
                     fx.append([d, cur])
                 elif cur is not a and cur != a:
@@ -92,8 +92,8 @@ def build_program(seed, run, tag=0xC01, overrides=None, prop=PROP):
                 if not knobs["autoalias"]:
                     discard = "autoalias on a shared object"
                     break
-                op["alias_fx"] = [[d, env.heap[d].__dict__.get("alias")] for d, a in before
-                                  if a is None and isinstance(env.heap[d].__dict__.get("alias"), str)]
+                op["alias_fx"] = [[d, lib.state(env.heap[d]).get("alias")] for d, a in before
+                                  if a is None and isinstance(lib.state(env.heap[d]).get("alias"), str)]
     return g.program, knobs, env, g, discard, rng
 
 
